@@ -154,6 +154,8 @@ func (i *IntransitiveActivity) Clean() {
 		o.Clean()
 		return nil
 	})
+	CleanRecipients(i.Actor)
+	CleanRecipients(i.Target)
 }
 
 // GetType returns the ActivityVocabulary type of the current Intransitive Activity
